@@ -78,7 +78,10 @@ impl<S: RecvStream, B> BufRecvStream<S, B> {
 }
 
 //@extract h3/src/frame.rs :: - :: struct FrameStream
+//@ghost-field taken: Ghost<Seq<Frame<PayloadLen>>>
 //@end
+// `taken` (ghost, a pure recording): every frame poll_next has handed out on this stream, in order — the vocabulary in
+// which the layers above state which frame sequences they accept (C03, C04)
 
 impl<S: RecvStream, B> FrameStream<S, B> {
     // (while DATA payload bytes are owed the decoder's memo is empty: poll_data consumes from the front)
@@ -95,7 +98,7 @@ impl<S: RecvStream, B> FrameStream<S, B> {
 //@ret r
 //@sig
         requires old(self).stream.wf(),
-        ensures final(self).stream.wf(), final(self).remaining_data == old(self).remaining_data, final(self).decoder == old(self).decoder,
+        ensures final(self).stream.wf(), final(self).remaining_data == old(self).remaining_data, final(self).decoder == old(self).decoder, final(self).taken == old(self).taken,
             final(self).consumed() == old(self).consumed(), old(self).delivered().is_prefix_of(final(self).delivered()),
             final(self).stream.stream.stops() == old(self).stream.stream.stops(),
             old(self).stream.eos ==> final(self).stream.eos,
@@ -140,6 +143,9 @@ impl<S: RecvStream, B> FrameStream<S, B> {
                 // waiting only while the peer has not finished, and only after the transport itself answered Pending
                 Poll::Pending => !final(self).stream.eos && final(self).stream.stream.pendings() > old(self).stream.stream.pendings(), // [C06.nowait]
             },
+            // the ghost log grows by exactly the frame handed out
+            final(self).taken@ == (match r { Poll::Ready(Ok(Some(f))) => old(self).taken@.push(f), _ => old(self).taken@ }), // [C02.stream.taken]
+            old(self).stream.eos ==> final(self).stream.eos, final(self).stream.stream.pendings() >= old(self).stream.stream.pendings(),
             old(self).stream.eos ==> !(r is Pending), // [C06.eos.ready]
             // a DATA header arms the payload counter with exactly the declared length (WebTransport: unbounded)
             match r { Poll::Ready(Ok(Some(Frame::Data(PayloadLen(len))))) => final(self).remaining_data == len,
@@ -160,6 +166,7 @@ impl<S: RecvStream, B> FrameStream<S, B> {
                 self.stream.stream.pendings() == old(self).stream.stream.pendings(),
                 old(self).stream.eos ==> self.stream.eos,
                 skip_unknown(self.since(&*old(self))) == skip_unknown(self.unread()),
+                self.taken == old(self).taken,
 //@entry
         // this layer only passes the frame-level predicates through: keep them folded
         hide(skip_unknown); hide(decoded_as); hide(frame_len); hide(head_needs_more); hide(fixed_field_mismatch); hide(h2_reserved_head);
@@ -196,6 +203,7 @@ impl<S: RecvStream, B> FrameStream<S, B> {
             let ghost mid = *self;
 //@at "let __vp_m1 = " after
             proof {
+                if __vp_m1 is Some { self.taken = Ghost(self.taken@.push(__vp_m1.unwrap())); }
                 // what the decoder left is a suffix of what was buffered, hence still the tail of what was delivered
                 let d = self.delivered();
                 assert(self.stream.stream == mid.stream.stream && self.stream.eos == mid.stream.eos);
@@ -224,6 +232,7 @@ impl<S: RecvStream, B> FrameStream<S, B> {
             // payload bytes come out once, in order, never beyond the declared length
             match r { Poll::Ready(Ok(Some(d))) => 0 < d@.len() <= old(self).remaining_data
                 && final(self).remaining_data == old(self).remaining_data - d@.len()
+                && d@.len() <= final(self).since(&*old(self)).len()
                 && d@ == final(self).since(&*old(self)).take(d@.len() as int)
                 && final(self).unread() == final(self).since(&*old(self)).skip(d@.len() as int), _ => true }, // [C02.data.bytes]
             // the stream ended inside the DATA payload: truncated frame
@@ -233,6 +242,8 @@ impl<S: RecvStream, B> FrameStream<S, B> {
             // waiting only while the peer has not finished, after the transport answered Pending
             r is Pending ==> !final(self).stream.eos && final(self).stream.stream.pendings() > old(self).stream.stream.pendings()
                 && final(self).remaining_data == old(self).remaining_data && final(self).unread() == old(self).unread(), // [C06.data.nowait]
+            final(self).taken == old(self).taken,
+            old(self).stream.eos ==> final(self).stream.eos, final(self).stream.stream.pendings() >= old(self).stream.stream.pendings(),
             old(self).stream.eos ==> !(r is Pending), // [C06.data.eos.ready]
             // a stream that has ended with payload bytes still owed is never reported as a clean end or left waiting
             old(self).remaining_data > 0 && final(self).stream.eos && final(self).since(&*old(self)).len() == 0
